@@ -400,6 +400,11 @@ type keySort struct {
 
 // locKeysStatic resolves the heap arrays an assigns entry touches, using types only.
 func (p *Proc) locKeysStatic(ct *Contract, e ast.Expr) []keySort {
+	if call, ok := e.(*ast.CallExpr); ok {
+		if id, ok := call.Fun.(*ast.Ident); ok && id.Name == "sbuf" {
+			return []keySort{{"G:sbuf", ArrSort(SInt, SStr)}}
+		}
+	}
 	fi := p.ctx.funcs[ct.PkgPath+"."+ct.Name]
 	scratch := newState()
 	extra := map[string]Val{}
@@ -716,6 +721,10 @@ func (p *Proc) evalLoc(ec *ectx, e ast.Expr) []loc {
 			}
 			p.failf(e, "%s: elemsof() needs a slice or map type", ec.where)
 		}
+		if id, ok := x.Fun.(*ast.Ident); ok && id.Name == "sbuf" && len(x.Args) == 1 {
+			v := p.eval(ec, x.Args[0])
+			return []loc{{key: "G:sbuf", ref: v.T, sort: ArrSort(SInt, SStr)}}
+		}
 		if id, ok := x.Fun.(*ast.Ident); ok && id.Name == "cachecontainers" {
 			// the containers owned by the cache: work queues, the index, subscriber sets, query maps, link lists
 			return []loc{{key: "$pfx:SH:func()", sort: SBool}, {key: "$pfx:~rescache.EventSubscription", sort: SBool},
@@ -906,7 +915,7 @@ func (p *Proc) frameGoals(st *State, allowed map[string][]*Term, whole map[strin
 		if !ok || now == was || now.S == was.S {
 			continue
 		}
-		if strings.HasPrefix(k, "G:") {
+		if strings.HasPrefix(k, "G:") && k != "G:sbuf" {
 			out = append(out, frameGoal{k, Eq(now, was)})
 			continue
 		}
